@@ -8,6 +8,7 @@ package main
 
 import (
 	"bytes"
+	"sync"
 	"crypto/sha256"
 	"encoding/json"
 	"fmt"
@@ -33,12 +34,13 @@ type Op struct {
 
 // Case is the replay form.
 type Case struct {
-	Kind   string   `json:"kind"`             // cutoff line hash audit conc pre valve mc mf fc
+	Kind   string   `json:"kind"`             // cutoff line hash audit conc pre valve valvec mc mf fc
 	N      int      `json:"n,omitempty"`      // cutoff N / preemption interval / MaximumBufferSize
 	Open   bool     `json:"open,omitempty"`   // valve: created on a non-nil writer
 	Ops    []Op     `json:"ops,omitempty"`    // writes and events
 	Script [][2]int `json:"script,omitempty"` // downstream answers (k, error code)
 	Errs   []int    `json:"errs,omitempty"`   // mc / mf / fc: error code per closer / flusher
+	Acts   string   `json:"acts,omitempty"`   // valvec: w = start a Write, s = start a Shut, r = release the oldest blocked underlying Write
 }
 
 func (o Op) data() []byte {
@@ -192,6 +194,118 @@ type recCloser struct {
 func (c *recCloser) Close() error { *c.log = append(*c.log, c.i); return codeErr(c.code) }
 func (c *recCloser) Flush() error { *c.log = append(*c.log, c.i); return codeErr(c.code) }
 
+// gate is an underlying writer whose Write blocks until released; it records
+// the events of a concurrent valve scenario in the order they happen.
+type gate struct {
+	mu      sync.Mutex
+	events  []string
+	waiting []chan struct{}
+	entered chan int
+}
+
+func (g *gate) record(e string) {
+	g.mu.Lock()
+	g.events = append(g.events, e)
+	g.mu.Unlock()
+}
+
+func (g *gate) Write(p []byte) (int, error) {
+	id := int(p[0])
+	rel := make(chan struct{})
+	g.mu.Lock()
+	g.events = append(g.events, fmt.Sprintf("Fb %d", id))
+	g.waiting = append(g.waiting, rel)
+	g.mu.Unlock()
+	g.entered <- id
+	<-rel
+	g.record(fmt.Sprintf("Fe %d", id))
+	return len(p), nil
+}
+
+func (g *gate) releaseOldest() bool {
+	g.mu.Lock()
+	defer g.mu.Unlock()
+	if len(g.waiting) == 0 {
+		return false
+	}
+	close(g.waiting[0])
+	g.waiting = g.waiting[1:]
+	return true
+}
+
+// runValveConcurrent plays a scenario on a real ValveWriter: writers and
+// shutters are goroutines, underlying Writes block in the gate until released.
+// The waits only let the goroutines settle; the verdict is taken from the
+// recorded order of events (an underlying Write begins / is about to return,
+// a Shut has returned), which for the real lock discipline can never show a
+// Shut returning while an underlying Write is in flight.
+func runValveConcurrent(acts string) (nw, ns int, events []string) {
+	for _, a := range acts {
+		switch a {
+		case 'w':
+			nw++
+		case 's':
+			ns++
+		}
+	}
+	g := &gate{entered: make(chan int, len(acts)+1)}
+	v := stream.NewValveWriter(g)
+	var wg sync.WaitGroup
+	wid, sid := 0, nw
+	for _, a := range acts {
+		switch a {
+		case 'w':
+			id := wid
+			wid++
+			done := make(chan struct{})
+			wg.Add(1)
+			go func() {
+				defer wg.Done()
+				v.Write([]byte{byte(id)})
+				close(done)
+			}()
+			select {
+			case <-g.entered: // inside the underlying writer (this or an earlier pending write)
+			case <-done: // discarded
+			case <-time.After(20 * time.Millisecond): // waiting for the lock
+			}
+		case 's':
+			id := sid
+			sid++
+			done := make(chan struct{})
+			wg.Add(1)
+			go func() {
+				defer wg.Done()
+				v.Shut()
+				g.record(fmt.Sprintf("Sr %d", id))
+				close(done)
+			}()
+			select {
+			case <-done:
+			case <-time.After(30 * time.Millisecond): // waiting for the lock
+			}
+		case 'r':
+			if g.releaseOldest() {
+				time.Sleep(2 * time.Millisecond)
+			}
+		}
+	}
+	// let everything finish
+	finished := make(chan struct{})
+	go func() { wg.Wait(); close(finished) }()
+	for {
+		select {
+		case <-finished:
+			g.mu.Lock()
+			events = append([]string(nil), g.events...)
+			g.mu.Unlock()
+			return
+		case <-time.After(time.Millisecond):
+			g.releaseOldest()
+		}
+	}
+}
+
 // writeAll runs the writes of the case through w and renders ops and results.
 func writeAll(c Case, w io.Writer, d *down, event func(), evName, wName string) (ops, res []string) {
 	for _, o := range c.Ops {
@@ -327,6 +441,12 @@ func runCase(c Case) (coq string, nontrivial bool, tags []string) {
 				seenW = true
 			}
 		}
+	case "valvec":
+		nw, ns, events := runValveConcurrent(c.Acts)
+		coq = fmt.Sprintf("CValveC %d %d %s", nw, ns, hx.List(events))
+		// non-trivial: a Shut was started while an underlying Write was blocked
+		nontrivial = strings.Contains(c.Acts, "ws") || strings.Contains(c.Acts, "wws")
+		tags = append(tags, fmt.Sprintf("valvec-len:%d", min(len(c.Acts), 8)))
 	case "mc", "mf":
 		var log []int
 		errs := make([]string, len(c.Errs))
@@ -387,7 +507,7 @@ const header = "From Coq Require Import List Arith ZArith NArith.\nImport ListNo
 func main() {
 	cfg := hx.Parse()
 	w := hx.NewWriter(cfg, header, "wcase", "stream_failures", 400)
-	w.Rule = "a case = (writer kind, parameters, writes and events, downstream script, implementation results with every downstream call); distinct = distinct Coq terms; non-trivial = cutoff crossed / a line completed across writes or a write refused by the cap / downstream short-wrote or failed / cancellation or Shut between writes / a failing closer among several"
+	w.Rule = "a case = (writer kind, parameters, writes and events, downstream script, implementation results with every downstream call); distinct = distinct Coq terms; non-trivial = cutoff crossed / a line completed across writes or a write refused by the cap / downstream short-wrote or failed / cancellation or Shut between writes / a Shut started while an underlying Write is blocked (concurrent valve scenarios, goroutines) / a failing closer among several"
 	add := func(c Case, origin string) {
 		if w.Aborted {
 			return
@@ -515,6 +635,26 @@ func main() {
 			add(Case{Kind: "mf", Errs: errs}, "exhaustive")
 		}
 	}
+	// concurrent valve: every scenario of length <= maxc over {w, s, r}
+	maxc := 3
+	if cfg.Thorough() {
+		maxc = 5
+	}
+	for l := 1; l <= maxc; l++ {
+		total := 1
+		for i := 0; i < l; i++ {
+			total *= 3
+		}
+		for v := 0; v < total; v++ {
+			acts := make([]byte, l)
+			x := v
+			for i := range acts {
+				acts[i] = "wsr"[x%3]
+				x /= 3
+			}
+			add(Case{Kind: "valvec", Acts: string(acts)}, "exhaustive")
+		}
+	}
 	add(Case{Kind: "fc", Errs: []int{0}}, "exhaustive")
 	add(Case{Kind: "fc", Errs: []int{5}}, "exhaustive")
 	// line processor: every string of length <= maxs over {a, LF, CR}, cut into
@@ -543,7 +683,7 @@ func main() {
 			}
 		}
 	}
-	w.Extra["exhaustive_scope"] = fmt.Sprintf("cutoff: N 0..4 x 1..3 writes of length 0..%d x %d downstream scripts; preemptable: all sequences of length 1..%d over {write, cancel} x interval 0..3; valve: all sequences of length 1..5 over {write, Shut}, open and nil; multi closer/flusher: all error lists of length 0..4 over {nil, e1, e2}; line processor: all strings of length 1..%d over {a, LF, CR} cut into two writes, unlimited and cap 3", maxw, len(scripts), maxo, maxs)
+	w.Extra["exhaustive_scope"] = fmt.Sprintf("cutoff: N 0..4 x 1..3 writes of length 0..%d x %d downstream scripts; preemptable: all sequences of length 1..%d over {write, cancel} x interval 0..3; valve: all sequences of length 1..5 over {write, Shut}, open and nil; concurrent valve: all scenarios of length 1..%d over {start a Write, start a Shut, release a blocked underlying Write}; multi closer/flusher: all error lists of length 0..4 over {nil, e1, e2}; line processor: all strings of length 1..%d over {a, LF, CR} cut into two writes, unlimited and cap 3", maxw, len(scripts), maxo, maxc, maxs)
 
 	// ---- seeded random ----
 	r := cfg.Rand
@@ -652,6 +792,13 @@ func main() {
 			}
 		}
 		add(Case{Kind: "valve", Open: r.Intn(5) != 0, Ops: ops, Script: randScript(3)}, "random")
+	}
+	for i := 0; i < 30*scale && i < 200; i++ {
+		acts := make([]byte, 4+r.Intn(5))
+		for j := range acts {
+			acts[j] = "wwsrr"[r.Intn(5)]
+		}
+		add(Case{Kind: "valvec", Acts: string(acts)}, "random")
 	}
 	for i := 0; i < 100*scale; i++ {
 		errs := make([]int, r.Intn(9))
